@@ -94,10 +94,12 @@ def check_script(direction, desc, acc, upto=None):
         elif not problems and inf.message != expect:
             problems.append("decoded-payload-differs-from-message")
         if problems:
-            # the decoder's cipher/MAC state is lost after a malformed packet and later problems of the same packet
-            # are consequences of the first: report the first clause of the first bad packet, skip the rest
+            # later problems of the same packet are consequences of the first: report the first clause only; the
+            # decoder's cipher/MAC state is lost after a mis-framed packet, so the rest of the stream is not judged
             bad += 1
-            acc.count("packets_not_judged_after_first_problem", len(script) - idx - 1)
+            desync = problems[0] not in ("padding-shorter-than-4", "decoded-payload-differs-from-message")
+            if desync:
+                acc.count("packets_not_judged_after_misframed_packet", len(script) - idx - 1)
             for pr in problems[:1]:
                 dims = {"framing": framing4(suite), "block": P.block_size(suite[0]) if suite else 8,
                         "zlib": bool(suite and suite[2] != "none"), "after-key-switch": nsw > 1}
@@ -106,7 +108,8 @@ def check_script(direction, desc, acc, upto=None):
                 P.sig_violation(acc, pr, dims, {"part": part, "suite": suite, "item": list(it), "decoded": inf.as_dict(),
                                     "wire_head": wire[:40]},
                               {"dir": direction, "desc": desc, "upto": idx})
-            break
+            if desync:
+                break
         else:
             bs = P.block_size(suite[0]) if suite else 8
             acc.nt((framing4(suite), suite, len(expect) % bs if not (suite and suite[2] != "none") else "z",
